@@ -120,9 +120,12 @@ Reopen(f) ==
 
 \* LoadVersion(t) on the live handle; t = 0 means latest; outside the range: error, tree stays usable
 LoadVersion(t) ==
-  LET tt == IF t = 0 THEN latest ELSE t
-      ok == (latest = 0 /\ t = 0) \/ tt \in Retained IN
-  IF ok THEN
+  LET tt == IF t = 0 THEN latest ELSE t IN
+  IF latest = 0 /\ t = 0 THEN
+     \* nothing to load: the call returns 0 and the working state stays as it is
+     /\ UNCHANGED <<work, saved, first, latest, version, fast, iv, nops, wm, vm, done>>
+     /\ Log("load", [t |-> t], [ver |-> 0, err |-> FALSE])
+  ELSE IF tt \in Retained THEN
      /\ version' = tt /\ work' = TreeAt(tt) /\ wm' = MapAt(tt) /\ nops' = 0
      /\ UNCHANGED <<saved, first, latest, fast, iv, vm, done>>
      /\ Log("load", [t |-> t], [ver |-> latest, err |-> FALSE])
@@ -160,7 +163,7 @@ DelOk(n) == n < version \/ n >= latest
 \* export version t, import it into an empty store, go on with that store
 ImportSwitch(t, f) ==
   /\ t \in Retained
-  /\ LET s == ImportTree(saved[t]) IN
+  /\ LET s == ImportTree(saved[t], t) IN
      /\ saved' = (t :> s) /\ vm' = (t :> vm[t])
      /\ first' = t /\ latest' = t /\ version' = t /\ work' = s /\ wm' = vm[t] /\ nops' = 0 /\ fast' = f
      /\ UNCHANGED <<iv, done>>
